@@ -117,6 +117,34 @@ theorem tx_timeout_keeps_rx (st : State) (addr : String) (seq : BitVec 24) (env 
   · rfl
   · split <;> rfl
 
+/-- and conversely: the expiry of a retention timer (a request RECEIVED) neither retries nor abandons a request sent, and
+    sends nothing — whatever key it carries, in particular the key of an outstanding request -/
+theorem rx_timeout_keeps_tx (st : State) (addr : String) (seq : BitVec 24) (env : Env) :
+    (step st (.rxTimeout addr seq) env).1.tx = st.tx ∧ (step st (.rxTimeout addr seq) env).2 = [] := by
+  simp [step]
+
+/-- any run of retention expiries, with any keys: the outstanding requests are exactly as before and nothing has been sent -/
+theorem rx_timeouts_keep_tx (evs : List ((String × BitVec 24) × Env)) (st : State) :
+    let r := evs.foldl (fun (acc : State × List Out) e =>
+      let r := step acc.1 (.rxTimeout e.1.1 e.1.2) e.2
+      (r.1, acc.2 ++ r.2)) (st, [])
+    r.1.tx = st.tx ∧ r.2 = [] := by
+  suffices h : ∀ (acc : State × List Out), acc.1.tx = st.tx → acc.2 = [] →
+      (evs.foldl (fun (acc : State × List Out) e =>
+        let r := step acc.1 (.rxTimeout e.1.1 e.1.2) e.2
+        (r.1, acc.2 ++ r.2)) acc).1.tx = st.tx ∧
+      (evs.foldl (fun (acc : State × List Out) e =>
+        let r := step acc.1 (.rxTimeout e.1.1 e.1.2) e.2
+        (r.1, acc.2 ++ r.2)) acc).2 = [] from h (st, []) rfl rfl
+  induction evs with
+  | nil => intro acc h1 h2; exact ⟨h1, h2⟩
+  | cons e evs ih =>
+    intro acc h1 h2
+    simp only [List.foldl_cons]
+    apply ih
+    · rw [(rx_timeout_keeps_tx acc.1 e.1.1 e.1.2 e.2).1]; exact h1
+    · rw [(rx_timeout_keeps_tx acc.1 e.1.1 e.1.2 e.2).2, h2]; rfl
+
 /-! ### the defect repaired by the `fix:` commit, and non-vacuity -/
 
 /-- before the fix the key was the 32-bit counter: at counter 2^24 the request goes out with sequence number 0,
